@@ -41,7 +41,11 @@ Conventions
   arithmetic is unbounded; the only place where the width of `usize` shows is `i32AsUsize`).
   `s.len() - 1` is checked all the same (`usizeSub`).
 * `Result<T>` is `Res T`: `.ok`, `.fail` (= `Err`, every `bail!` and every `?`), `.panic`
-  (overflow, `expect`, slicing out of range).  `a.bind f` is "`a?`, then `f`".
+  (overflow, `expect`, slicing out of range).  `a.bind f` is "`a?`, then `f`";
+  `someOrFail o k` is `match o { Some(v) => k(v), None => return Err(..) }` (the macro
+  `unwrap_or_PIE!` of `core`), `someOrPanic o k` is `o.expect(..)` followed by `k`.  (Combinators
+  rather than nested `match`es: their equations are propositional lemmas, so that no proof step
+  asks the kernel to evaluate a `match` on `I32.wrap ↑n` — see the note in `Tuc.Props.BoundsLit`.)
 * `&&` and `||` evaluate their right operand only when needed, as in Rust: an operand that can
   overflow is sequenced accordingly (`v > parts_length || v < -parts_length`, l.226/240: the
   negation is computed only if the first test is false).
@@ -52,9 +56,10 @@ Conventions
   characters whose offsets are used are `:` and `=` (ASCII), and the only arithmetic on them is
   `idx_colon + 1` and `s.len() - 1`.  `str::parse::<i32>` walks over `src.as_bytes()`: here it
   walks over the characters (`*c as char` is the character itself; a non-ASCII character is one
-  non-digit instead of two to four non-digit bytes — what differs is the length test
-  `can_not_overflow`, which only chooses between two loops that `parseI32_unchecked_eq_checked`
-  … see `Tuc.Props.BoundsLit` … shows to agree).
+  non-digit instead of two to four non-digit bytes — what differs is the length seen by
+  `can_not_overflow`, which only chooses between two loops that agree:
+  `uncheckedLoop_eq_checkedLoop` in `Tuc.Props.BoundsLit`, and both fail on a non-digit).
+  `char::to_digit` computes in `u32` = `UInt32` (`wrapping_sub`).
 * `Vec<u8>` fallbacks: `fallback.into()` is `utf8`.
 * `Range<usize>` is `Nat × Nat` (`start`, `end`), as in `Tuc.Model.Bounds`; iterating over it
   (`r.map(..).collect()`, l.266-271) is a walk over `List.range' start (end - start)` — empty when
@@ -81,6 +86,19 @@ def resOfOption {α : Type} : Option α → Res α
 def resMapM {α β : Type} (f : α → Res β) : List α → Res (List β)
   | [] => .ok []
   | a :: t => (f a).bind fun b => (resMapM f t).bind fun bs => .ok (b :: bs)
+
+/-- `match option { Some(value) => …, None => return Err(..) }` — the macro `unwrap_or_PIE!` of
+    the number parser, `ok_or(..)?` -/
+def someOrFail {α β : Type} (o : Option α) (k : α → Res β) : Res β :=
+  match o with
+  | Option.some a => k a
+  | Option.none => .fail
+
+/-- `option.expect(..)` / `.unwrap()`, then the rest: `None` panics -/
+def someOrPanic {α β : Type} (o : Option α) (k : α → Res β) : Res β :=
+  match o with
+  | Option.some a => k a
+  | Option.none => .panic
 
 /-! ## `i32` -/
 
@@ -198,11 +216,9 @@ def radixAsI32 : I32 := i32 10
     overflow on at most 7 digits (`.fail` = `return Err(InvalidDigit)`). -/
 def uncheckedBody (isPositive : Bool) (c : Char) (result : I32) : Res I32 :=
   (I32.mul result radixAsI32).bind fun result =>                       -- 48 result = result * (radix as i32)
-  match toDigit10 c with                                               -- 49 unwrap_or_PIE!(to_digit, InvalidDigit)
-  | Option.none => .fail
-  | Option.some x =>
-    if isPositive then I32.add result (u32AsI32 x)                     -- 50 result = result + (x as i32)
-    else I32.sub result (u32AsI32 x)                                   --    result = result - (x as i32)
+  someOrFail (toDigit10 c) fun x =>                                    -- 49 unwrap_or_PIE!(to_digit, InvalidDigit)
+  if isPositive then I32.add result (u32AsI32 x)                       -- 50 result = result + (x as i32)
+  else I32.sub result (u32AsI32 x)                                     --    result = result - (x as i32)
 
 /-- `run_unchecked_loop!` (l.46-53) -/
 def uncheckedLoop (isPositive : Bool) : List Char → I32 → Res I32
@@ -215,17 +231,12 @@ def uncheckedLoop (isPositive : Bool) : List Char → I32 → Res I32
     (`InvalidDigit`, `PosOverflow` or `NegOverflow`) -/
 def checkedBody (isPositive : Bool) (c : Char) (result : I32) : Res I32 :=
   let mul := I32.checkedMul result radixAsI32                          -- 76 result.checked_mul(radix as i32)
-  match toDigit10 c with                                               -- 77 unwrap_or_PIE!(to_digit, InvalidDigit)
-  | Option.none => .fail
-  | Option.some x =>
-    let x := u32AsI32 x                                                -- 77 as i32
-    match mul with                                                     -- 78 unwrap_or_PIE!(mul, overflow)
-    | Option.none => .fail
-    | Option.some result =>
-      match (if isPositive then I32.checkedAdd result x                -- 79 checked_add / checked_sub
-             else I32.checkedSub result x) with
-      | Option.none => .fail
-      | Option.some result => .ok result
+  someOrFail (toDigit10 c) fun x =>                                    -- 77 unwrap_or_PIE!(to_digit, InvalidDigit)
+  let x := u32AsI32 x                                                  -- 77 as i32
+  someOrFail mul fun result =>                                         -- 78 unwrap_or_PIE!(mul, overflow)
+  someOrFail (if isPositive then I32.checkedAdd result x               -- 79 checked_add / checked_sub
+              else I32.checkedSub result x) fun result =>
+  .ok result
 
 /-- `run_checked_loop!` (l.62-82) -/
 def checkedLoop (isPositive : Bool) : List Char → I32 → Res I32
@@ -251,14 +262,14 @@ def canNotOverflow (digits : List Char) : Bool := decide (digits.length ≤ 4 * 
 def parseI32Lit (src : List Char) : Res I32 :=
   if src.isEmpty then .fail                                            -- 10-12 Err(Empty)
   else
-    match splitSign src with                                           -- 18-26
-    | Option.none => .fail
-    | Option.some (isPositive, digits) =>
-      let result := i32 0                                              -- 28
-      if canNotOverflow digits then                                    -- 39
-        uncheckedLoop isPositive digits result                         -- 54-58
-      else
-        checkedLoop isPositive digits result                           -- 84-88
+    someOrFail (splitSign src) fun p =>                                -- 18-26 (is_positive, digits)
+    let isPositive := p.1
+    let digits := p.2
+    let result := i32 0                                                -- 28
+    if canNotOverflow digits then                                      -- 39
+      uncheckedLoop isPositive digits result                           -- 54-58
+    else
+      checkedLoop isPositive digits result                             -- 84-88
                                                                        -- 90 Ok(result)
 
 /-! ## `side.rs` -/
@@ -273,7 +284,7 @@ inductive SideL where
 def SideL.fromStr (s : List Char) : Res SideL :=
   match s with                                                         -- 16
   | [] => .ok SideL.cont                                               -- 17 "" => Side::Continue
-  | _ => (parseI32Lit s).bind fun v => .ok (SideL.some v)                 -- 18-21 parse::<i32>().or_else(bail!)?
+  | _ => (parseI32Lit s).bind fun v => .ok (SideL.some v)              -- 18-21 parse::<i32>().or_else(bail!)?
 
 /-- `impl PartialOrd for Side`: `partial_cmp` (side.rs:36-49) -/
 def SideL.partialCmp (self other : SideL) : Res (Option Ordering) :=
@@ -367,14 +378,10 @@ def UserBoundsL.fromStr (s : List Char) : Res UserBoundsL :=
 
 /-- `impl From<Range<usize>> for UserBounds` (userbounds.rs:90-102) -/
 def UserBoundsL.ofRange (value : Nat × Nat) : Res UserBoundsL :=
-  match usizeTryIntoI32 value.1 with                                   -- 91-94 start.try_into().expect(..)
-  | Option.none => .panic
-  | Option.some start =>
-    match usizeTryIntoI32 value.2 with                                 -- 96-99 end.try_into().expect(..)
-    | Option.none => .panic
-    | Option.some end_ =>
-      (I32.add start (i32 1)).bind fun startP1 =>                      -- 101 start + 1
-      .ok (UserBoundsL.new (SideL.some startP1) (SideL.some end_))
+  someOrPanic (usizeTryIntoI32 value.1) fun start =>                   -- 91-94 start.try_into().expect(..)
+  someOrPanic (usizeTryIntoI32 value.2) fun end_ =>                    -- 96-99 end.try_into().expect(..)
+  (I32.add start (i32 1)).bind fun startP1 =>                          -- 101 start + 1
+  .ok (UserBoundsL.new (SideL.some startP1) (SideL.some end_))
 
 /-- `impl PartialOrd for UserBounds`: `partial_cmp` (userbounds.rs:110-117) -/
 def UserBoundsL.partialCmp (self other : UserBoundsL) : Res (Option Ordering) :=
@@ -443,8 +450,8 @@ def rangeEndLit (r : SideL) (partsLength : I32) : Res I32 :=
 /-- `UserBounds::try_into_range` (userbounds.rs:220-260) -/
 def UserBoundsL.tryIntoRange (self : UserBoundsL) (partsLength : Nat) : Res (Nat × Nat) :=
   let partsLength : I32 := usizeAsI32 partsLength                      -- 221 parts_length as i32
-  (rangeStartLit self.l partsLength).bind fun start =>                    -- 223-235
-  (rangeEndLit self.r partsLength).bind fun end_ =>                       -- 237-249
+  (rangeStartLit self.l partsLength).bind fun start =>                 -- 223-235
+  (rangeEndLit self.r partsLength).bind fun end_ =>                    -- 237-249
   if end_ ≤ start then                                                 -- 251
     -- `end` must always be 1 or more greater than start
     .fail                                                              -- 253 bail!
@@ -462,7 +469,7 @@ def UserBoundsL.unpack (self : UserBoundsL) (numFields : Nat) : Res (List UserBo
   match self.tryIntoRange numFields with                               -- 265
   | .ok r => resMapM unpackSlot (List.range' r.1 (r.2 - r.1))          -- 266-271 r.map(|i| …).collect()
   -- A bound that can't be resolved has no slots to enumerate: it is kept as it is
-  | .fail => .ok [UserBoundsL.withFallback self.l self.r self.fallbackOob]   -- 275-279
+  | .fail => .ok [UserBoundsL.withFallback self.l self.r self.fallbackOob]  -- 275-279
   | .panic => .panic
 
 /-- `complement_std_range` (userbounds.rs:291-304) -/
@@ -475,7 +482,7 @@ def complementStdRangeLit (partsLength : Nat) (r : Nat × Nat) : List (Nat × Na
 /-- `UserBounds::complement` (userbounds.rs:284-288) -/
 def UserBoundsL.complement (self : UserBoundsL) (numFields : Nat) : Res (List UserBoundsL) :=
   (self.tryIntoRange numFields).bind fun r =>                          -- 285 …?
-  let rComplement := complementStdRangeLit numFields r                    -- 286
+  let rComplement := complementStdRangeLit numFields r                 -- 286
   resMapM UserBoundsL.ofRange rComplement                              -- 287 .map(|x| x.into()).collect()
 
 /-! ## literal values ↔ model values -/
